@@ -76,6 +76,14 @@ def gen_cases(tier, seed):
         if not cyc and rng.random() < 0.3:
             c["superset"] = [w for _, w in base["planted"]][:3] + [1]
         cases.append(c)
+    for i in range(8 if tier == "quick" else 60):
+        # two-phase MinErrorFlow (few_flow_values_epsilon) on noisy weights, solved repeatedly inside a history
+        rng = gen.rng_for("C18mef", seed, i)
+        cyc_ = rng.random() < 0.4
+        base = I.cyc_edge_base(rng, wt="int", max_edges=8, exact=False) if cyc_ else I.dag_edge_base(rng, wt="int", max_edges=9, exact=False)
+        cases.append({"cyc": cyc_, "spec": I.spec_of(base), "steps": ["MinErrorFlow", rng.choice(["MinErrorFlow", "kMinPathErrorCycles" if cyc_ else "kMinPathError"]), "MinErrorFlow"], "planted": len(base["planted"]),
+                      "oo": {}, "dflt": False, "group": "t1", "ignore": [], "cons": [], "scale": [], "superset": None, "share_ignore": False, "node": False, "probe_dict": False,
+                      "pending": False, "eps": rng.choice([0.1, 0.25, 1.0])})
     for i in range(30 if tier == "quick" else 300):
         # the SAME graph object (same id label, same size) with other flow values for the second model, or an equal-sized copy of it
         cases.append({"kind": "reflow", "rs": f"C18rf:{seed}:{i}"})
